@@ -87,10 +87,11 @@ def newCkpt (s : St) (cur : Set) (blockMs : Nat) : St :=
     | some p => p.set.length
   { saved := some cur, ckpts := s.ckpts ++ [{ ts := blockMs, idx := idx, set := cur, threshold := totalPower cur * 2 / 3, slots := slots }] }
 
-/-- the bridge end blocker (height > 1): `none` = error (the block fails) -/
+/-- the bridge end blocker (height > 1): `none` = error (the block fails).  With no EVM-registered validator of
+non-zero power there is nothing to compare and the block goes on unchanged (fix 2nd of x/bridge/module.go). -/
 def endBlock (s : St) (vals : List SVal) (blockMs : Nat) : Option St :=
   match currentSet vals with
-  | none => none
+  | none => some s
   | some cur =>
     match s.saved with
     | none => some (newCkpt s cur blockMs)
